@@ -22,6 +22,6 @@ def run(ctx):
         ctx.cov["program_level_batch_law"] = summ
     ctx.cov["rule"] = ("cases = kernels that take several operands with every combination of batch B vs 1 (and incompatible batches, which must be rejected) on exact integer data vs the model; "
                        "random programs evaluated on a batch and per sample (values bitwise, gradients of batch-1 operands = sum of per-sample gradients); non-trivial = distinct accepted cases")
-    ctx.assumptions += ["the program-level theorem covers straight-line programs over the elementwise operators; the other operators' sample-wise structure is in their kernel theorems or corresponded-only"]
+    ctx.assumptions += ["program-level theorems: forward batch law for the 16-operator expression language (Properties_C03_program), batch guards at every node and the movers (Properties_C03_nodes), gradient folding for tree-shaped programs over the polynomial operators of core_family (Properties_C03_gradient); shared intermediate nodes (DAGs) and the non-polynomial operators are covered by the kernel theorems and the program-level oracle runs only"]
     if not res["ok"]:
         ctx.proof_broken()
